@@ -6,6 +6,7 @@ package openapi3filter
 // same structure, typed by the declared schema.
 
 import (
+	"math"
 	"net/http"
 	"net/url"
 	"reflect"
@@ -37,8 +38,16 @@ func verifTyped(text string, typ string) (any, bool) {
 		v, err := strconv.ParseInt(text, 10, 64) // integers travel in decimal: 0x10, 0b11, 0o7, 1_000 are not serialisations of an integer
 		return v, err == nil
 	case "number":
+		// numbers travel in decimal notation: NaN and Inf are not serialisations of a number (Go's
+		// hexadecimal forms need five bytes and its underscore forms are assumed away: outside the bound)
+		for i := 0; i < len(text); i++ {
+			verifAssume(text[i] != '_')
+		}
 		v, err := strconv.ParseFloat(text, 64)
-		return v, err == nil
+		if err != nil || v != v || v > math.MaxFloat64 || v < -math.MaxFloat64 {
+			return nil, false
+		}
+		return v, true
 	case "boolean":
 		v, err := strconv.ParseBool(text)
 		return v, err == nil
